@@ -135,6 +135,35 @@ pub fn dec_pattern<D: Dec>(k: usize, r: usize, om: u32, rm: u32) {
     }
 }
 
+/// Object state reached through a HISTORY: decoder configured (k1,r1), shards
+/// given by the masks (no decode), then a valid reset to (k,r): the next three
+/// arbitrary add calls must behave exactly as on a fresh decoder.
+pub fn dec_adds_after_reset<D: Dec>(k1: usize, r1: usize, om: u32, rm: u32, k: usize, r: usize) {
+    let mut d = D::mk(k1, r1, SB).unwrap();
+    let s: [u8; 2] = k::any();
+    let mut i = 0;
+    while i < k1 {
+        if om >> i & 1 == 1 {
+            d.add_o(i, &s).unwrap();
+        }
+        i += 1;
+    }
+    let mut j = 0;
+    while j < r1 {
+        if rm >> j & 1 == 1 {
+            d.add_r(j, &s).unwrap();
+        }
+        j += 1;
+    }
+    d.rst(k, r, SB).unwrap();
+    let mut sp = DecSpec::new(k, r);
+    let buf: [u8; 6] = k::any();
+    let a = checked_add(&mut d, &mut sp, &buf);
+    let b = checked_add(&mut d, &mut sp, &buf);
+    let c = checked_add(&mut d, &mut sp, &buf);
+    kcover!(a && b && c);
+}
+
 /// Like dec_calls but without decode (cheap; run for every codec type).
 pub fn dec_adds_only<D: Dec>(k: usize, r: usize) {
     let mut d = D::mk(k, r, SB).unwrap();
